@@ -56,7 +56,7 @@ func (d *funcDecoder) DecodeStream(s *Stream, depth int64, p unsafe.Pointer) err
 		case 'n':
 			// skipValue has read the literal: the cursor is behind it
 			if bytes.Equal(src, nullbytes) {
-				*(*unsafe.Pointer)(p) = nil
+				// null leaves a func as it is ( as in encoding/json )
 				return nil
 			}
 		case 't', 'f':
@@ -109,7 +109,7 @@ func (d *funcDecoder) Decode(ctx *RuntimeContext, cursor, depth int64, p unsafe.
 			}
 		case 'n':
 			if bytes.Equal(src, nullbytes) {
-				*(*unsafe.Pointer)(p) = nil
+				// null leaves a func as it is ( as in encoding/json )
 				return end, nil
 			}
 		case 't':
